@@ -251,7 +251,26 @@ def rule_after_needs_sequence(ctx: Ctx, rep: Report) -> None:
     rep.ob(rule, "_older:version_2", "self.tx_version" in str(norm(older.node)) or "version" in str(norm(older.node)), older.where(), "older() needs a version-2 transaction (BIP68)")
 
 
+def rule_sighash_commits(ctx: Ctx, rep: Report) -> None:
+    """C10.sighash_commits: the tamper clause -- what a signature commits to is
+    what the BIPs say, for every hash type: signer and engine share one sighash
+    function, so a field dropped from the message is accepted by both and only
+    shows when a signed transaction is altered afterwards. Decided by C09's
+    finite case split of the BIP341 / BIP143 message builders (7 x 2 and 15
+    hash-type cases), reported here under this property."""
+    from rules import C09
+    tmp = Report("C09", rep.tier)
+    tmp.quiet = True
+    for name, fn in C09.RULES:
+        if name in ("C09.bip341", "C09.bip143"):
+            fn(ctx, tmp)
+    for o in tmp.obs:
+        rep.ob("C10.sighash_commits", f"{o.rule.split('.')[1]}:{o.instance}", o.held, o.site, o.detail)
+    rep.floor("C10.sighash_commits", 25)
+
+
 RULES = [
+    ("C10.sighash_commits", rule_sighash_commits),
     ("C10.params_used", rule_params_used),
     ("C10.bip322_first_prevout", rule_bip322_first_prevout),
     ("C10.after_needs_sequence", rule_after_needs_sequence),
@@ -262,6 +281,9 @@ RULES = [
 ]
 
 CONTROLS = [
+    {"rule": "C10.sighash_commits", "name": "SINGLE|ANYONECANPAY commits to no output", "module": "btclib.script.sig_hash",
+     "edit": lambda ctx: M.sub_expr(ctx, "btclib.script.sig_hash.taproot", lambda n: isinstance(n, ast.If) and norm(n.test) == "hashtype & 3 == SINGLE" and "sha_single_output" in norm(n) or (isinstance(n, ast.Compare) and norm(n) == "hashtype & 3 == SINGLE"),
+                                    "hashtype == SINGLE", 1)},
     {"rule": "C10.params_used", "name": "the key-path signer drops the merkle root", "module": "btclib.psbt_signer",
      "edit": lambda ctx: M.sub_expr(ctx, "btclib.psbt_signer.SoftwareSigner.sign_schnorr", M.is_text("output_prvkey_from_merkle_root(prv_key, merkle_root)"), "output_prvkey_from_merkle_root(prv_key)")},
     {"rule": "C10.bip322_first_prevout", "name": "the prevouts come from the psbt alone", "module": "btclib.bip322",
